@@ -59,6 +59,12 @@ PAIRS = [
     {"block_size": 4, "merge_dims": 8},
     {"skip_preconditioning_any_dim_gt": 3, "grafting_type": "sgd"},
     {"second_moment_decay": 1.0, "update_statistics_freq": 2},
+    {"update_statistics_freq": 2, "update_preconditioners_freq": 3},
+    {"update_statistics_freq": 3, "update_preconditioners_freq": 2},
+    {"momentum_decay": 0.0, "weight_decay": 0.25},
+    {"momentum_decay": 0.0, "weight_decay": 0.25,
+     "weight_decay_after_momentum": False},
+    {"momentum_decay": 0.0, "learning_rate": {"sched": "lin"}},
 ]
 
 
@@ -106,9 +112,13 @@ def plan(tier, seed):
     for tr in TREES:
       if k >= 2 and len(c) >= 2 and tr == "T2" and c not in PAIRS:
         continue
+      d, evs = depth, events
+      if "update_preconditioners_freq" in c or "update_statistics_freq" in c:
+        # interacting frequencies first disagree at step lcm-ish (3 for 2/3)
+        d, evs = max(depth, 5), ["gA", "gB"]
       tasks.append({"name": "shampoo|%s|%s" % (cname(c), tr), "cfg": c,
-                    "tree": tr, "kind": "shampoo", "depth": depth,
-                    "events": events, "seed": seed, "part": "shampoo",
+                    "tree": tr, "kind": "shampoo", "depth": d,
+                    "events": evs, "seed": seed, "part": "shampoo",
                     "profile": {"x64": True}})
   for c in configs(SK_OPTIONS, k):
     for tr in TREES:
